@@ -1561,6 +1561,12 @@ where
     };
 
     match &self.cbor {
+      Value::Bytes(_) if self.state.ctrl != Some(ControlOperator::SIZE) => {
+        self.add_error(
+          "byte string value cannot be validated against a range without the .size control operator"
+            .to_string(),
+        );
+      }
       Value::Bytes(b) => {
         let len = b.len() as i128;
         if is_inclusive {
